@@ -11,6 +11,7 @@ class definitions that precede it.
 from __future__ import annotations
 
 import inspect
+import json
 import os
 
 from .. import dna, kernel
@@ -917,3 +918,43 @@ def catalogue_summary(case):
 
 
 EXPECTED_PROBES = {"C06": ["drop-handle", "fresh-record-object", "ancestor-before-descendant+separating", "descendant-before-ancestor+separating", "sibling-before-sibling+separating", "characterize-after-define", "query-defined-class", "rotated-record", "synthetic-record"]}
+
+
+def post_checks(tier, verif_seed):
+    """Fresh-interpreter cross-check of the fork oracle: a sample of queries is
+    answered by really fresh interpreters (one process per query) and must
+    agree with the answers of pristine forks."""
+    import subprocess
+    import sys
+
+    n = 32 if tier == "quick" else 200
+    r = stream(h64(verif_seed, "freshcheck"), "fresh")
+    acc = W["accepts"] or {}
+    queries = []
+    ids = [c for c in W["corder"]]
+    while len(queries) < n:
+        cid = r.choice(ids)
+        if acc.get(cid) and r.random() < 0.5:
+            rid = r.choice(sorted(acc[cid]))
+        else:
+            rid = r.choice(sorted(W["records"]))
+        queries.append(["call", cid, rid, r.choice(METHODS[:4])])
+    script = os.path.join(os.path.dirname(os.path.dirname(os.path.abspath(__file__))), "fresh_query.py")
+    env = dict(os.environ, PYTHONHASHSEED="random", PYTHONDONTWRITEBYTECODE="1")
+    mismatches = []
+    for i in range(0, n, 16):
+        procs = [(q, subprocess.Popen([sys.executable, "-W", "ignore", script, W["scratch"], json.dumps(q)], env=env, stdout=subprocess.PIPE, stderr=subprocess.PIPE)) for q in queries[i:i + 16]]
+        for q, p in procs:
+            out, err = p.communicate(timeout=300)
+            ans = None
+            for line in out.decode().splitlines():
+                if line.startswith("ANSWER "):
+                    ans = json.loads(line[7:])
+            if ans is None:
+                raise kernel.HarnessError("fresh-interpreter query failed: %s" % err.decode()[-800:])
+            forked = kernel.fork_call(_oracle_child, ({}, [], q), timeout=60, what="oracle")
+            if forked != ans:
+                mismatches.append({"query": q, "fork": forked, "fresh": ans})
+    if mismatches:
+        raise kernel.HarnessError("fork oracle disagrees with fresh interpreters: %s" % json.dumps(mismatches[:3]))
+    return {"fork_oracle_vs_fresh_interpreter": {"queries": n, "mismatches": 0}}
